@@ -44,28 +44,29 @@ type scenario struct {
 
 type server struct {
 	gnet.BuiltinEventEngine
-	sc       scenario
-	mu       sync.Mutex
-	evs      []event
-	seq      int64
-	eng      gnet.Engine
-	booted   chan struct{}
-	opened   map[string]int
-	closed   map[string]int
-	loopOf   map[string]int64 // connection -> goroutine id of its callbacks
-	remote   map[string]string
-	shutdown int32
-	returned int32
-	afterRet int32
-	trigger  int32  // the scenario's shutdown-by-action has fired
-	slowed   int32  // slowclose: one OnClose of the shutdown has been delayed
-	closeBeg int32  // OnClose callbacks entered
-	closeEnd int32  // OnClose callbacks completed
-	stopping int32  // the driver has called Stop
-	lnNet    string // network and address of one listener, as DupListener wants them
-	lnAddr   string
-	inCB     map[int64]int32
-	active   map[any][2]int64 // event loop -> (goroutine running a callback of it, nesting depth)
+	sc            scenario
+	mu            sync.Mutex
+	evs           []event
+	seq           int64
+	eng           gnet.Engine
+	booted        chan struct{}
+	opened        map[string]int
+	closed        map[string]int
+	loopOf        map[string]int64 // connection -> goroutine id of its callbacks
+	remote        map[string]string
+	shutdown      int32
+	returned      int32
+	afterRet      int32
+	trigger       int32  // the scenario's shutdown-by-action has fired
+	slowed        int32  // slowclose: one OnClose of the shutdown has been delayed
+	closeBeg      int32  // OnClose callbacks entered
+	closeEnd      int32  // OnClose callbacks completed
+	stopping      int32  // the driver has called Stop
+	regUnanswered int32  // accepted Register calls that got no result
+	lnNet         string // network and address of one listener, as DupListener wants them
+	lnAddr        string
+	inCB          map[int64]int32
+	active        map[any][2]int64 // event loop -> (goroutine running a callback of it, nesting depth)
 }
 
 func goid() int64 {
@@ -553,6 +554,7 @@ func runScenario(sc scenario) string {
 							}
 							n++
 						case <-tm:
+							atomic.AddInt32(&s.regUnanswered, 1)
 							util.Fail(fmt.Sprintf("C19: an accepted Register call delivered no result within 4 s (shutdown raced with the registration), results so far %d", n))
 							return
 						}
@@ -641,14 +643,14 @@ func runScenario(sc scenario) string {
 	}
 	// C07: descriptors the engine created are closed and the Unix-socket file is removed when Run returns
 	ho := ""
-	if !hammer && base > 0 && sc.source != "regrace" {
+	if !hammer && base > 0 {
 		var now int
-		if !settle(2*time.Second, func() bool { now = countFds(); return now <= base }) {
+		if !settle(2*time.Second, func() bool { now = countFds(); return now <= base }) && sc.source != "regrace" {
 			util.Fail(fmt.Sprintf("C07: %d descriptors are open after Run returned and all peers closed, %d before the engine started (%s): leaked %s", now, base, sc.source, newFds(baseTab)))
 		}
-		ho = hoReport(strings.Count(newFds(baseTab), "socket(connected"))
+		ho = hoReport(strings.Count(newFds(baseTab), "socket(connected"), int(atomic.LoadInt32(&s.regUnanswered)))
 	} else {
-		hoReport(0)
+		hoReport(0, 0)
 	}
 	if sockPath != "" {
 		if _, err := os.Stat(sockPath); err == nil {
